@@ -16,9 +16,45 @@ import (
 //verif:override (*github.com/tinode/chat/server.Topic).notifySubChange
 func verifNotifySubChange(t *Topic, uid, actor types.Uid, isChan bool, oldWant, oldGiven, newWant, newGiven types.AccessMode, skip string) {
 	verifNotified = append(verifNotified, uid)
+	verifNotes = append(verifNotes, verifNote{uid, oldWant, oldGiven, newWant, newGiven})
 }
 
 var verifNotified []types.Uid
+
+// what the change notifications said (C05: whoever tracks permissions from them must end up with the truth)
+type verifNote struct {
+	uid                                    types.Uid
+	oldWant, oldGiven, newWant, newGiven types.AccessMode
+}
+
+var verifNotes []verifNote
+
+// assertChangesNotified: every member whose requested or granted mode this step changed was the subject of a
+// change notification that ends at the modes the topic now holds - a tracker applying the notifications in order
+// arrives at the authoritative permissions.
+func (w *verifSubWorld) assertChangesNotified() {
+	for _, u := range w.allUsers() {
+		old, wasIn := w.before[u]
+		now, isIn := w.t.perUser[u]
+		if !wasIn || !isIn || now.deleted {
+			continue
+		}
+		if old.modeWant == now.modeWant && old.modeGiven == now.modeGiven {
+			continue
+		}
+		last := -1
+		for i, n := range verifNotes {
+			if n.uid == u {
+				last = i
+			}
+		}
+		verifAssert(last >= 0, "permission-change-is-notified")
+		if last >= 0 {
+			n := verifNotes[last]
+			verifAssert(n.newWant == now.modeWant && n.newGiven == now.modeGiven, "notification-ends-at-the-authoritative-modes")
+		}
+	}
+}
 
 // knobs for focused variants
 var verifPrevBase = types.ModeCPublic // fixed bits of the former member's stored modes
@@ -63,6 +99,7 @@ func verifSubSetup(nMembers int) *verifSubWorld {
 	w.fx, w.t = fx, fx.topic
 	t := w.t
 	verifNotified = nil
+	verifNotes = nil
 	globals.maxSubscriberCount = verifSubLimit
 	w.members = fx.uids
 	w.previous, w.stranger = 8, 9
